@@ -1,10 +1,11 @@
-use alloc::string::String;
+use alloc::{string::String, vec::Vec};
 
 use crate::{
     builtin_topics::{DCPS_PARTICIPANT, DCPS_PUBLICATION, DCPS_SUBSCRIPTION, DCPS_TOPIC},
     dcps::{
         dcps_domain_participant::{
             builtin_constants::{TYPE_LOOKUP_REPLY_TOPIC_NAME, TYPE_LOOKUP_REQUEST_TOPIC_NAME},
+            discovery_methods::is_partition_matched,
             participant_entity::{BUILT_IN_TOPIC_NAME_LIST, DcpsDomainParticipant},
             user_defined_data_reader::UserDefinedDataReader,
         },
@@ -324,11 +325,12 @@ impl DcpsDomainParticipant {
         Ok(subscriber.default_data_reader_qos.clone())
     }
 
-    #[tracing::instrument(skip(self))]
+    #[tracing::instrument(skip(self, runtime))]
     pub fn set_subscriber_qos(
         &mut self,
         subscriber_handle: &InstanceHandle,
         qos: QosKind<SubscriberQos>,
+        runtime: &impl DdsRuntime,
     ) -> DdsResult<()> {
         let qos = match qos {
             QosKind::Default => self.domain_participant.default_subscriber_qos.clone(),
@@ -348,6 +350,31 @@ impl DcpsDomainParticipant {
             subscriber.qos.check_immutability(&qos)?;
         }
         subscriber.qos = qos;
+
+        // Writers that were matched through the previous partition are not matched anymore
+        let partition = subscriber.qos.partition.clone();
+        for data_reader in &mut subscriber.data_reader_list {
+            let unmatched_publication_list: Vec<_> = data_reader
+                .matched_publication_list
+                .iter()
+                .filter(|p| !is_partition_matched(&partition, &p.partition))
+                .map(|p| InstanceHandle::new(p.key().value))
+                .collect();
+            for publication_handle in &unmatched_publication_list {
+                data_reader.remove_matched_publication(publication_handle);
+            }
+        }
+
+        // The subscriber QoS is part of the discovery data of every contained reader
+        let enabled_data_reader_handle_list: Vec<_> = subscriber
+            .data_reader_list
+            .iter()
+            .filter(|dr| dr.enabled)
+            .map(|dr| dr.instance_handle)
+            .collect();
+        for data_reader_handle in &enabled_data_reader_handle_list {
+            self.announce_data_reader(subscriber_handle, data_reader_handle, runtime);
+        }
         Ok(())
     }
 
